@@ -5,19 +5,25 @@ RULE = ("per carrier: either end (application or target) writes 0 B .. 1 MiB (th
         "it and then end-of-stream within a bound; distinct_nontrivial = distinct (carrier, length, closing side). DNS close protocol (c17q): "
         "operation scripts (data arriving, Reads with buffer sizes 0, 1, n-1, n, n+1 around what is buffered, a close of every kind at every "
         "position, Reads after it) on a real client connection and a real server-side connection, compared token for token with the "
-        "extracted model; c17p: the real poll goroutine over scripted path fates and server-side events; distinct = distinct scripts")
+        "extracted model, Writes waiting for their acknowledgement included (a close of every kind at every position of a script of Writes, "
+        "queued chunks and acknowledgements); c17p: the real poll goroutine over scripted path fates and server-side events; distinct = distinct scripts")
 EXPLANATION = ("Props/C17.v: the copy loop reports EOF only after writing everything it read (flush before close) and every PipeData execution "
                "terminates; delivery of FIN after data is the multiplexer's contract (hypothesis). Scenarios on every carrier. "
                "DNS tunnel connection: Queue/Close.v models the in-queue with its parked reader, Read/Write/Close of both ends, closeConnection, "
                "the close request, the expiry sweep, SendAndReceive and the poll goroutine; for every operation sequence and path script: what "
                "Reads return is a prefix of what was appended, end-of-stream only on a closed end with everything delivered (also for a released "
                "reader), a closed end never parks a Read, drain in ceil(buffered/n)+1 Reads, BADCONN or 7 equal errors close the polling "
-               "client; the shapes 'EOF as soon as closed' and 'errors wrapped' are refuted. The model's switches and constants are read from "
+               "client; the shapes 'EOF as soon as closed' and 'errors wrapped' are refuted. Out-queues: a Write parked in waitEmptyQueue (behind "
+               "chunks queued earlier, or waiting for the acknowledgement of its own) is run on by the acknowledgement or by the Close of the "
+               "out-queue at the three places where the in-queue is closed; a Write reports success only when everything queued has been "
+               "acknowledged and os.ErrClosed otherwise, a closed end parks no writer. The model's switches and constants are read from "
                "the source (Gen/CloseShape.v) and the model is run against the real objects (c17q, c17p).")
 TRUSTED = ["smux delivers FIN after the data written before it (hypothesis)",
            "DNS close model: one reader per end; operations are atomic (no interleaving below one Read / Append / Close / poll round); the expiry "
            "sweep is driven by an accessor that repeats the sweep's three statements (the sweep goroutine cannot be called); read deadlines on "
-           "the in-queue are not modelled (see the report: a Read that ends by deadline leaves its notifier behind)"]
+           "the queues are not modelled; the out-queues are not joined to the peer's in-queue here (an acknowledgement is an event of the "
+           "environment, constrained by the session being live; delivery and retransmission are C07's model); the client's out-queue is driven "
+           "through an accessor with a callback that acknowledges or fails (the client of c17q has not shaken hands)"]
 RUN_TIMEOUT = 3000
 
 
@@ -106,6 +112,14 @@ def gen_q(rng, maxops):
             st[e]["parked"] = True
         st[e]["buf"] = max(0, b - n)
 
+    def write(e):
+        n = rng.choice([0, 1, 2, 5])
+        d = [(st[e]["next"] + 50 + i) % 256 for i in range(n)]
+        if e == "s":
+            ops.append(rng.choice(["sw %s" % hx(d), "sw %s" % hx(d), "sz %s" % hx(d or [9]), "sk", "sk"]))
+        else:
+            ops.append(rng.choice(["cv %s 1" % hx(d), "cv %s 0" % hx(d), "cv %s 0" % hx(d), "ck", "ck"]))
+
     def close(e):
         k = rng.choice(["cc"]) if e == "c" else rng.choice(["sc", "sq", "sx", "sc", "sq"])
         ops.append(k)
@@ -116,16 +130,18 @@ def gen_q(rng, maxops):
     for _ in range(n):
         e = rng.choice(["c", "s"])
         r = rng.below(100)
-        if r < 30:
+        if r < 24:
             arrive(e)
-        elif r < 72:
+        elif r < 56:
             read(e)
+        elif r < 74:
+            write(e)
         elif r < 84:
             close(e)
         elif r < 88:
             ops.append(rng.choice(["sf", "sx", "sc", "sq", "cc"]))
         elif r < 94:
-            ops.append(e + "w")
+            ops.append("cw" if e == "c" else "sw #2a")
         else:
             read(e)
             read(e)
@@ -151,7 +167,7 @@ def close_cases(tier, rng):
         base = ["%sr 4" % e, "%sa #0102030405" % e, "%sr 0" % e, "%sr 1" % e, "%sa #0607" % e, "%sr 2" % e, "%sr 3" % e, "%sr 1" % e, "%sa #08" % e, "%sr 2" % e, "%sr 1" % e]
         for k in closes:
             for pos in range(len(base) + 1):
-                ops = base[:pos] + [k] + base[pos:] + ["%sr 3" % e, "%sr 3" % e, "%sw" % e]
+                ops = base[:pos] + [k] + base[pos:] + ["%sr 3" % e, "%sr 3" % e, "cw" if e == "c" else "sw #09"]
                 cs.append(q_case(ops, "close-at-%d" % pos))
     # buffered n octets at the close, then Reads of 1, n-1, n, n+1 octets
     for e, k in (("s", "sc"), ("s", "sq"), ("s", "sx"), ("c", "cc")):
@@ -162,10 +178,29 @@ def close_cases(tier, rng):
                 cs.append(q_case(ops, "drain"))
     # a reader parked when the end closes, in every way; closing twice; closing after expiry; forgotten sessions
     for ops in (["sr 8", "sc"], ["sr 8", "sq"], ["sr 8", "sx"], ["cr 8", "cc"], ["sr 0", "sc", "sr 0"], ["cr 0", "cc", "cr 0"],
-                ["sr 8", "sx", "sc", "sw", "sr 1"], ["sx", "sf", "sa #01", "sq", "sr 1"], ["sc", "sc", "sq", "sx", "sf", "sr 1", "sw"],
+                ["sr 8", "sx", "sc", "sw #01", "sr 1"], ["sx", "sf", "sa #01", "sq", "sr 1"], ["sc", "sc", "sq", "sx", "sf", "sr 1", "sw #01"],
                 ["cc", "cc", "cr 1", "cw"], ["sa #", "sr 1", "sa #", "sc"], ["ca #", "cr 1", "ca #", "cc"],
                 ["cc", "ca #0102", "cr 1", "cr 1", "cr 1"], ["sq", "sa #0102", "sr 1"]):
             cs.append(q_case(ops, "fixed"))
+    # writers. A Write on the server-side connection waits for the acknowledgement of its chunk: the session ends under it in every way
+    # (application, client's request, sweep), alone and with a reader parked too; then a further Write
+    for k in ("sc", "sq", "sx"):
+        cs.append(q_case(["sw #68656c6c6f", k], "writer"))
+        cs.append(q_case(["sr 4", "sw #68656c6c6f", k, "sw #01", "sr 1"], "writer"))
+        cs.append(q_case(["sz #01", "sw #0203", k, "sw #04"], "writer"))              # parked before queueing its own chunk
+        cs.append(q_case(["sw #0102", "sk", "sw #03", k, "sk"], "writer"))
+    # a close of every kind at every position of a script of Writes, queued chunks and acknowledgements
+    wbase = ["sw #0102", "sk", "sz #03", "sw #0405", "sk", "sk", "sw #06", "sk"]
+    for k in ("sc", "sq", "sx"):
+        for pos in range(len(wbase) + 1):
+            cs.append(q_case(wbase[:pos] + [k] + wbase[pos:] + ["sw #07"], "writer-close-at-%d" % pos))
+    cbase = ["cv #01 1", "cv #02 0", "cv #0304 1", "ck", "cv #05 0", "cv #06 0", "ck", "ck"]
+    for pos in range(len(cbase) + 1):
+        cs.append(q_case(cbase[:pos] + ["cc"] + cbase[pos:] + ["cv #07 1", "cw"], "writer-close-at-%d" % pos))
+    for ops in (["sw #", "sw #01", "sw #02", "sk", "sa #0a0b", "sr 2"], ["cc", "cv #01 1", "cv #02 0", "ck"],
+                ["cv #01 0", "cv #0203 0", "cc"], ["cv #01 0", "cv #0203 1", "ck", "ck", "cc"], ["sz #01", "sz #02", "sw #03", "sk", "sk", "sc"],
+                ["sx", "sw #01", "sw #02", "sc", "sw #03"], ["sw #01", "sx", "sf", "sk", "sw #02"]):
+        cs.append(q_case(ops, "writer"))
     for _ in range(3000 if thorough else 260):
         cs.append(q_case(gen_q(rng, 40 if thorough else 24), "random"))
     # the poll goroutine over scripted fates
@@ -219,9 +254,10 @@ def oracle_q(case, impl):
     ops = case["line"].split()[1:]
     obs = impl.split()
     out = []
-    if not obs or obs[0] in BAD_WORDS or any(w in BAD_WORDS for w in obs):
+    if not obs or obs[0] in BAD_WORDS or any(w in BAD_WORDS and not (w == "err" and k >= 2 and obs[k - 2] == "w") for k, w in enumerate(obs)):
         return [("crash;carrier=dns-close", "the script did not run to its end: " + impl[:200])]
-    ends = {"c": {"app": b"", "ret": b"", "closed": False, "parked": False}, "s": {"app": b"", "ret": b"", "closed": False, "parked": False}}
+    ends = {"c": {"app": b"", "ret": b"", "closed": False, "parked": False, "wparked": None, "queued": 0, "acked": 0},
+            "s": {"app": b"", "ret": b"", "closed": False, "parked": False, "wparked": None, "queued": 0, "acked": 0}}
     i = 0   # ops
     j = 0   # obs
 
@@ -253,12 +289,73 @@ def oracle_q(case, impl):
             return True
         return False
 
+    def wresult(e, toks, what, from_entry):
+        """a Write outcome `w <n> ok|closed|err` on end e (toks: the three tokens)"""
+        st = ends[e]
+        n, how = int(toks[1]), toks[2]
+        if how == "ok":
+            if st["acked"] != st["queued"]:
+                out.append(("write-ok-without-ack;end=" + e, "%s on end %s reported success with %d of %d queued chunks acknowledged (%s)"
+                            % (what, e, st["acked"], st["queued"], case["line"][:300])))
+            if from_entry and n > 0:            # (client: its own chunk was queued and acknowledged inside the call)
+                st["queued"] += 1
+                st["acked"] += 1
+        else:
+            if how == "closed" and not st["closed"]:
+                out.append(("write-closed-on-open-end;end=" + e, "%s on end %s failed with os.ErrClosed though nothing had closed that end" % (what, e)))
+            if from_entry and n > 0:
+                st["queued"] += 1
+
+    def wwoke(e):
+        nonlocal j
+        st = ends[e]
+        if j < len(obs) and obs[j] == "wwoke":
+            from_entry = st["wparked"] == "entry"
+            if obs[j + 1] == "wblock":
+                st["wparked"] = "final"
+                st["queued"] += 1
+                j += 3
+            else:
+                st["wparked"] = None
+                wresult(e, obs[j + 1:j + 4], "the released Write", from_entry)
+                j += 4
+            return True
+        return False
+
     try:
         while i < len(ops):
             o = ops[i]
             e = o[0]
             st = ends[e]
-            if o in ("ca", "sa"):
+            if o in ("sw", "cv"):
+                i += 2 if o == "sw" else 3
+                r = obs[j]
+                if r == "w":
+                    wresult(e, obs[j:j + 3], "a Write", True)
+                    j += 3
+                elif r == "wblock":
+                    if st["closed"] and e == "c":     # (cv after cc is below dc.Write's own refusal: not a state the application can reach)
+                        st["below_refusal"] = True
+                    if st["closed"] and e == "s":
+                        out.append(("write-parks-after-close;end=" + e, "a Write on end %s parked although the end had been closed: it will never return (%s)" % (e, case["line"][:300])))
+                    st["wparked"] = "final" if obs[j + 1] == "1" else "entry"
+                    if obs[j + 1] == "1":
+                        st["queued"] += 1
+                    j += 2
+                else:
+                    j += 1                      # busy
+            elif o == "sz":
+                i += 2
+                j += 1
+                st["queued"] += 1
+            elif o in ("sk", "ck"):
+                i += 1
+                ans = obs[j]
+                j += 1
+                if ans in ("ok", "ck") and st["acked"] < st["queued"]:
+                    st["acked"] += 1
+                wwoke(e)
+            elif o in ("ca", "sa"):
                 data = bytes.fromhex(ops[i + 1][1:])
                 i += 2
                 ans = obs[j]
@@ -295,6 +392,10 @@ def oracle_q(case, impl):
                 released = woke(e)
                 if st["closed"] and was_parked and not released:
                     out.append(("reader-not-released;end=" + e, "a Read was parked on end %s when %s closed it, and was not released (%s)" % (e, o, case["line"][:300])))
+                w_was_parked = st["wparked"] is not None
+                w_released = wwoke(e)
+                if st["closed"] and w_was_parked and (not w_released or st["wparked"] is not None):
+                    out.append(("writer-not-released;end=" + e, "a Write was parked on end %s (waiting for an acknowledgement) when %s closed it, and was not released: it will never return (%s)" % (e, o, case["line"][:300])))
             elif o == "sf":
                 i += 1
                 j += 1
@@ -311,6 +412,9 @@ def oracle_q(case, impl):
         for e, pk in (("c", cpark), ("s", spark)):
             if ends[e]["closed"] and pk != "0":
                 out.append(("reader-not-released;end=" + e, "at the end a reader is still parked on the closed end " + e))
+        for e, pk in (("c", obs[j + 6]), ("s", obs[j + 7])):
+            if ends[e]["closed"] and pk != "0" and not ends[e].get("below_refusal") and not any(sg == "writer-not-released;end=" + e for sg, _ in out):
+                out.append(("writer-not-released;end=" + e, "at the end a writer is still parked on the closed end " + e))
     except (IndexError, ValueError):
         return [("crash;carrier=dns-close", "observation out of step: " + impl[:200])]
     return out
@@ -396,7 +500,7 @@ def shrink(case):
     ops = []
     i = 1
     while i < len(p):
-        k = 2 if p[i] in ("ca", "sa", "cr", "sr") else 1
+        k = 3 if p[i] == "cv" else 2 if p[i] in ("ca", "sa", "cr", "sr", "sw", "sz") else 1
         ops.append(p[i:i + k])
         i += k
     for j in range(len(ops)):
@@ -429,7 +533,7 @@ def proj_p(obs):
     def last(seq):
         ws = [w for w in seq if w in ("eof", "block", "busy")]
         return ws[-1] if ws else "data"
-    return (t[:t.index("cwoke")], cw[0], sw[0], t[e:e + 6], data(cw, cr), last(cr), data(sw, sr), last(sr))
+    return (t[:t.index("cwoke")], cw[0], sw[0], t[e:e + 8], data(cw, cr), last(cr), data(sw, sr), last(sr))
 
 
 def agree(case, impl, model):
@@ -450,8 +554,9 @@ META = {
                   "the close / end-of-stream protocol is a model of its own (in-queue with parked reader, both ends' Read/Write/Close, close "
                   "request, expiry, SendAndReceive, poll goroutine): proved for every operation sequence and path script - no loss or "
                   "duplication by closing, end-of-stream only after everything on a closed end, no Read parks after a close, drain within "
-                  "ceil(buffered/n)+1 Reads, BADCONN and the give-up rule close a polling client - and run token for token against the real "
-                  "objects, including the real poll goroutine.",
+                  "ceil(buffered/n)+1 Reads, BADCONN and the give-up rule close a polling client, a Write waiting for its acknowledgement is "
+                  "released with os.ErrClosed by whatever ends the session and reports success only after the acknowledgement - and run token "
+                  "for token against the real objects, including the real poll goroutine.",
     "level_note": "smux FIN ordering, kernel socket buffers and TLS close_notify are hypotheses exercised end to end. DNS close model: one "
                   "reader per end, operations atomic, read deadlines and the out-queue's parked writers not modelled.",
     "technique": "Coq invariant proofs over the copy-loop model and over the DNS close-protocol model (extracted, run against the real "
